@@ -87,7 +87,8 @@ def show(v):
 
 
 class PathResult:
-    def __init__(self, conds, outcome, effects, decisions, notes, obligations):
+    def __init__(self, conds, outcome, effects, decisions, notes, obligations, recorded=None):
+        self.recorded = recorded or []
         self.conds = conds
         self.outcome = outcome
         self.effects = effects
@@ -125,6 +126,7 @@ class Ctx:
         self.effects = []
         self.notes = []
         self.obligations = []  # (description, z3 bool) to be discharged by the harness
+        self.recorded = []     # (tag, value) pairs recorded by harness stubs
         self.opts = opts
         self.stats = stats
         self.counter = 0
@@ -248,7 +250,7 @@ def explore(thunk, opts=None, assumptions=(), max_paths=20000):
             outcome = Unsup("interpreter recursion limit")
         stack.extend(ctx.alternatives)
         paths.append(PathResult(ctx.conds, outcome, ctx.effects, ctx.taken, ctx.notes,
-                                ctx.obligations))
+                                ctx.obligations, ctx.recorded))
         stats.paths += 1
         if len(paths) > max_paths:
             raise PathLimit("more than %d paths" % max_paths)
